@@ -562,6 +562,26 @@ func (i *Interpreter) ExecuteRoute(route *Route, request *Request) (*Response, e
 	// Always add request body to environment (even if nil)
 	// This ensures 'input' variable is always available in routes
 	inputValue := request.Body
+	if route.InputType != nil {
+		if namedType, ok := route.InputType.(NamedType); ok {
+			if typeDef, exists := i.typeDefs[namedType.Name]; exists {
+				if _, isObject := inputValue.(map[string]interface{}); !isObject {
+					// No JSON object arrived (no body, a body that is not an
+					// object, or one the server could not parse). That cannot
+					// satisfy a type with required fields, and the route body
+					// must not run on a null input in that case.
+					if err := i.typeChecker.ValidateObjectAgainstTypeDef(nil, typeDef); err != nil {
+						return &Response{
+							StatusCode: 400,
+							Body: map[string]interface{}{
+								"error": fmt.Sprintf("input validation failed: %v", err),
+							},
+						}, err
+					}
+				}
+			}
+		}
+	}
 	if inputValue != nil {
 		// If route has an InputType declared, apply defaults and validate
 		if route.InputType != nil {
